@@ -168,3 +168,103 @@ pub fn corpus_c() -> Vec<Case> {
 pub fn extra_events(c: &Case) -> Vec<EventSpec> {
     c.extra_events.clone()
 }
+
+/// Position just before the closing parenthesis of the first call of `ident` (or `ident!`) in `src`,
+/// and whether the call already has arguments.
+fn call_end(src: &str, ident: &str) -> Option<(usize, bool)> {
+    let b = src.as_bytes();
+    let mut from = 0;
+    while let Some(off) = src[from..].find(ident) {
+        let start = from + off;
+        let before_ok = start == 0 || !(b[start - 1].is_ascii_alphanumeric() || b[start - 1] == b'_');
+        let mut i = start + ident.len();
+        if i < b.len() && b[i] == b'!' {
+            i += 1;
+        }
+        if before_ok && i < b.len() && b[i] == b'(' {
+            let open = i;
+            let mut depth = 0i32;
+            let mut j = open;
+            let mut has_args = false;
+            while j < b.len() {
+                match b[j] {
+                    b'(' | b'[' | b'{' => depth += 1,
+                    b')' | b']' | b'}' => {
+                        depth -= 1;
+                        if depth == 0 {
+                            return Some((j, has_args));
+                        }
+                    }
+                    b'"' => {
+                        j += 1;
+                        while j < b.len() && b[j] != b'"' {
+                            if b[j] == b'\\' {
+                                j += 1;
+                            }
+                            j += 1;
+                        }
+                        has_args = true;
+                    }
+                    b'\'' => {
+                        // s'..', r'..', t'..' literals
+                        j += 1;
+                        while j < b.len() && b[j] != b'\'' {
+                            if b[j] == b'\\' {
+                                j += 1;
+                            }
+                            j += 1;
+                        }
+                        has_args = true;
+                    }
+                    c if !c.is_ascii_whitespace() && j > open => has_args = true,
+                    _ => {}
+                }
+                j += 1;
+            }
+            return None;
+        }
+        from = start + ident.len();
+    }
+    None
+}
+
+/// Parameter variants of the maintainers' examples: for every optional parameter that an example does not
+/// mention, variants that set it - each value of its enum, true/false for booleans, 0/2 for integers.
+/// (Misses of seeded changes were always workload misses: a defect behind `count: 2` needs a call with `count: 2`.)
+pub fn corpus_a_param_variants() -> Vec<Case> {
+    let base = corpus_a();
+    let mut out = vec![];
+    for f in vrl::stdlib::all() {
+        let ident = f.identifier();
+        let params = f.parameters();
+        for c in base.iter().filter(|c| c.label.starts_with(&format!("A:{ident}:")) || c.label.starts_with(&format!("A:{ident}(closure):"))) {
+            if !c.deterministic || c.skip {
+                continue;
+            }
+            let Some((end, has_args)) = call_end(&c.program.source, ident) else { continue };
+            for p in params.iter().filter(|p| !p.required) {
+                if c.program.source.contains(&format!("{}:", p.keyword)) {
+                    continue;
+                }
+                let mut values: Vec<String> = vec![];
+                if let Some(vs) = p.enum_variants {
+                    values.extend(vs.iter().map(|v| format!("{:?}", v.value)));
+                } else if p.kind == vrl::compiler::value::kind::BOOLEAN {
+                    values.extend(["true".to_string(), "false".to_string()]);
+                } else if p.kind == vrl::compiler::value::kind::INTEGER {
+                    values.extend(["0".to_string(), "2".to_string()]);
+                }
+                for (vi, v) in values.iter().enumerate() {
+                    let source = format!("{}{}{}: {}{}", &c.program.source[..end], if has_args { ", " } else { "" }, p.keyword, v, &c.program.source[end..]);
+                    let mut case = c.clone();
+                    case.label = format!("P:{}:{}={}#{}", &c.label[2..], p.keyword, vi, v.replace('"', ""));
+                    case.program.source = source;
+                    case.program.label = case.label.clone();
+                    case.tags.push("param-variant".into());
+                    out.push(case);
+                }
+            }
+        }
+    }
+    out
+}
